@@ -126,6 +126,9 @@ const (
 
 // dialOne dials the connection once.
 func (d *Dialer) dialOne(addr string) (net.Conn, error) {
+	if c, err, ok := verifDial(d.network, addr); ok {
+		return c, err
+	}
 	if network := asQUIC(d.network); network != "" {
 		ctx := context.Background()
 		if d.dialTimeout > 0 {
